@@ -29,6 +29,7 @@ CHECK = {
         _c01_entry("vC01_restart"),
         _c01_entry("vC01_restartSuspended"),
     ],
+    "opts_thorough": {"rounds": 5},
     "opts": {"rounds": 3, "unwind": 4, "unwind_mode": "assume", "feasibility": False, "substitute": SUB,
              "loop_bounds": {M("setState"): 3, M("compareAndSwapState"): 3}},
     "stop": list(SUB.keys()),
